@@ -283,6 +283,12 @@ func StructBuilder(env *Zlisp, name string,
 
 	structName := symN.name
 
+	if _, isBuiltinType := GoStructRegistry.Builtin[structName]; isBuiltinType {
+		// the registry is process-wide: a struct named string or
+		// int64 would replace that type for every interpreter.
+		return SexpNull, fmt.Errorf("bad struct name: '%s' is a built-in type", structName)
+	}
+
 	// A declaration that fails further down must not take an earlier
 	// declaration of the same name with it: the placeholder below
 	// replaces the registry entry and the binding at once.
